@@ -538,7 +538,9 @@ func checkSplit(in SplitInput) *fail {
 			return
 		}
 		for _, order := range [][]int{{0, 1, 2}, {2, 1, 0}, {1, 0, 2}} {
-			r := dump.Run([]dump.File{files[order[0]], files[order[1]], files[order[2]]}, dump.Options{})
+			r := dump.Run([]dump.File{files[order[0]], files[order[1]], files[order[2]]}, dump.Options{}, func(ms *yang.Modules) {
+				ms.ParseOptions.IgnoreSubmoduleCircularDependencies = in.Cross[0] && in.Cross[1]
+			})
 			for _, e := range r.LoadErrs {
 				if e != "" {
 					f = &fail{"split-load-error", "loads", e, nil}
@@ -783,7 +785,7 @@ func run(c *core.Ctx) {
 				place[i] = x % 3
 				x /= 3
 			}
-			for cr := 0; cr < 3; cr++ { // s1 includes s2, s2 includes s1, neither (mutual includes are an error by default)
+			for cr := 0; cr < 4; cr++ { // s1 includes s2, s2 includes s1, neither; both only under the option that tolerates circular includes
 				if c.Expired() {
 					return
 				}
@@ -811,6 +813,9 @@ func run(c *core.Ctx) {
 						b, _ := json.Marshal(Input{Split: &in})
 						c.Sample(string(b))
 					}
+				}
+				if in.Cross[0] && in.Cross[1] {
+					continue // the variants below are for the default options
 				}
 				if in.Cross[0] && !in.Cross[1] {
 					// the same partition with s2 reached only through s1's include
@@ -942,7 +947,7 @@ func permute(a []int, f func([]int)) {
 func init() {
 	core.Register(&core.Prop{
 		ID: "C13", Variant: "plain", Shards: shards, Run: run, Replay: replay,
-		Rule:        "rev: every sequence (with repeats) of header variants of one module name whose revision lists are {}, {r1}, {r2}, {r2,r1}, {r1,r2}, {r3,r2}, and a second text with {r1}, as modules (import) and as submodules (include): a load is rejected iff the same latest revision of the name is already loaded, the bare key and a date-less import/include bind the latest loaded revision, a dated one binds exactly that revision when loaded, and all orders of one multiset reach the same registry and bindings; file: every layout of candidate and near-miss names (a.yang, a@date.yang, ab.yang, ab@date.yang, a@bad.yang, a@2022-1-1.yang, ...) over two search-path directories (the current directory is empty), as real files whose content identifies them: Modules.Read must open the file the reference chooser picks (first directory with a candidate; name.yang, else latest date; never a near miss) or fail when there is none; split: 9 body items (typedef, users of it, grouping, uses, identities, identityref, augment of an own node, rpc) in every partition into main module + 2 submodules with every cross-include pattern under which references stay visible, 3 load orders: the main module's tree and identities must dump exactly like the unsplit module; partitions in which s1 includes s2 also with the main module including only s1; every 16th partition (thorough: every one) also as two revisions of the main module that both include the submodules - each revision must be the whole module. states = distinct sequences/layouts/partitions",
+		Rule:        "rev: every sequence (with repeats) of header variants of one module name whose revision lists are {}, {r1}, {r2}, {r2,r1}, {r1,r2}, {r3,r2}, and a second text with {r1}, as modules (import) and as submodules (include): a load is rejected iff the same latest revision of the name is already loaded, the bare key and a date-less import/include bind the latest loaded revision, a dated one binds exactly that revision when loaded, and all orders of one multiset reach the same registry and bindings; file: every layout of candidate and near-miss names (a.yang, a@date.yang, ab.yang, ab@date.yang, a@bad.yang, a@2022-1-1.yang, ...) over two search-path directories (the current directory is empty), as real files whose content identifies them: Modules.Read must open the file the reference chooser picks (first directory with a candidate; name.yang, else latest date; never a near miss) or fail when there is none; split: 9 body items (typedef, users of it, grouping, uses, identities, identityref, augment of an own node, rpc) in every partition into main module + 2 submodules with every cross-include pattern under which references stay visible (mutual includes under the option IgnoreSubmoduleCircularDependencies), 3 load orders: the main module's tree and identities must dump exactly like the unsplit module; partitions in which s1 includes s2 also with the main module including only s1; every 16th partition (thorough: every one) also as two revisions of the main module that both include the submodules - each revision must be the whole module. states = distinct sequences/layouts/partitions",
 		Assumptions: []string{"when a dated import names a revision that is not loaded the statement is silent and nothing is compared", "partitions in which a submodule would need a definition of its owner or of a submodule it does not include are excluded (visibility inside submodules is not what C13 claims)", "no symlinks, permission errors or concurrent modification of the directories"},
 	})
 }
